@@ -303,7 +303,15 @@ pub async fn run_layer_a(rep: &mut Report, sub_seed: u64) {
     let backend = Arc::new(ScriptedBackend {
         seed: sub_seed,
         conns: AtomicUsize::new(0),
-        refuse_plan: (0..64).map(|i| i > 0 && rng.chance(1, 10) && fault_rate > 0).collect(),
+        refuse_plan: {
+            // in a quarter of the faulty runs the backend goes away for good after a few connections:
+            // whatever was queued while the reconnect was being attempted must still be answered (with an error)
+            let gone_for_good_after = if fault_rate > 0 && rng.chance(1, 4) { Some(rng.urange(1, 4)) } else { None };
+            (0..4096).map(|i| match gone_for_good_after {
+                Some(k) => i >= k,
+                None => i > 0 && i < 64 && rng.chance(1, 10) && fault_rate > 0,
+            }).collect()
+        },
         log: Default::default(),
         fault_rate,
     });
